@@ -22,97 +22,97 @@ CLAIMED["C11"] = (
 )
 
 CLAIMED["C02"] = (
-    "ast extraction of protobuf field writes per builder (.create_message) and field reads per factory (.create_from_message) with reaching-definition provenance of the written value and of where each read value ends up, compared against the parsed .proto message definitions",
+    "ast extraction of protobuf field writes per builder (.create_message) and field reads per factory (.create_from_message) with reaching-definition provenance of the written value and of where each read value ends up, compared against the parsed .proto message definitions Writer-side goal-lanelet pairing is evaluated on three goal states (protobuf messages as lenient objects); the per-write freshness of the message comes from C15"s effect trace. Behavioural rules are decided by abstract evaluation (sa/strdom.py): the anchored functions are interpreted over their AST on a small symbolic world (objects with atom-valued fields, concrete small collections, uninterpreted outside calls, model functions for outside collaborators), every test must be decidable from the shape case (else the check refuses), and the resulting state / value is compared with what the property requires; nothing of the repository is imported or executed. All modules are first brought into a normal form (sa/unroll.py: constant-table loops unrolled, constant getattr/setattr folded).",
     "Decides per message type the field-level round-trip triangle: every proto field of a written message is set by its builder, every field set is read by the paired factory, the value written from attribute a reaches constructor/attribute slot a (no crossing), enums travel by member name through the same proto enum into the same-named Python enum, double fields receive the bare attribute value (no formatting/rounding), optional fields written under a guard are read under HasField, and builders dereference optional attributes only under a None guard. Equality of concrete values after a round trip is not decided.",
     "Trusts the protobuf runtime, the generated *_pb2 modules matching the .proto files, and annotation-derived domain classes of builder parameters.",
     "DESIGN.md §3 C02",
 )
 
 CLAIMED["C18"] = (
-    "ast effect (purity) analysis: flow-sensitive provenance of every store / container mutation / setattr to the parameters (and their elements) it may reach, summaries propagated to a fixpoint over the resolved call graph (self calls, typed receivers, setters, unbound class calls, by-name fallback requiring agreement), evaluated at every read-only entry point",
+    "ast effect (purity) analysis: flow-sensitive provenance of every store / container mutation / setattr to the parameters (and their elements) it may reach, summaries propagated to a fixpoint over the resolved call graph (self calls, typed receivers, setters, unbound class calls, by-name fallback requiring agreement), evaluated at every read-only entry point Augmented assignment with an array value through an alias counts as a write to the aliased object. PURE-RESTORE is decided by evaluating the operation on a small network (sa/strdom.py) and comparing every attribute before and after, index slots against the index invariant.",
     "Per operation, hence for every sequence of operations: no method of a model class other than the named mutator families (401 methods and property getters: queries, goal checks, equality/hash, copy/pickle hooks, draw, derivations such as merge_lanelets) writes into self or a model-typed argument, directly or through callees; no function of the XML/protobuf writers or the visualization modules (239) writes into an object typed as a model class; a read-only method that drops the spatial index rebuilds it before returning. Tolerated: filling an empty memo slot inside the getter that returns it, and the designated index refresh function writing only derived caches (their agreement with the dependencies is C11).",
     "Trusts annotations for receiver types, that third-party code (shapely, lxml, matplotlib, numpy, protobuf) does not mutate model objects handed to it, that objects constructed inside an operation do not alias caller state through their constructor arguments, and the mutator name-family table (operations whose purpose is to change the object).",
     "DESIGN.md §2 E-PURITY, §3 C18",
 )
 
 CLAIMED["C04"] = (
-    "ast rules: annotation-typed protocol check of every loop over the scenario's obstacle collections, getter/setter attribute agreement, canonicalised argument-role rules at the placement and heading sites, guard implication over linear integer forms (t, initial time step, list length) for the time-step dispatch and the trajectory index, derived role<->registry table for the scenario-level filters",
+    "ast rules: annotation-typed protocol check of every loop over the scenario"s obstacle collections, getter/setter attribute agreement, canonicalised argument-role rules at the placement and heading sites, guard implication over linear integer forms (t, initial time step, list length) for the time-step dispatch and the trajectory index, derived role<->registry table for the scenario-level filters Behavioural rules are decided by abstract evaluation (sa/strdom.py): the anchored functions are interpreted over their AST on a small symbolic world (objects with atom-valued fields, concrete small collections, uninterpreted outside calls, model functions for outside collaborators), every test must be decidable from the shape case (else the check refuses), and the resulting state / value is compared with what the property requires; nothing of the repository is imported or executed. All modules are first brought into a normal form (sa/unroll.py: constant-table loops unrolled, constant getattr/setattr folded). Evaluated: the occupancy set of a trajectory prediction (4 shape cases), the time-step look-up of predictions (6 cases), the three scenario-level queries (57 cases). Freshness of stored occupancies comes from C11"s engine.",
     "Decides the structural, necessary part: attributes used on elements of Scenario.obstacles/... exist in every class the collection may hold (or are guarded); a setter stores what its getter reads (129 pairs); the exact occupancy is shape.rotate_translate_local(state.position, state.orientation) and only when neither position nor orientation is a set; headings are atan2(velocity_y, velocity); the initial occupancy and every predicted occupancy are computed from, and stamped with, the state they belong to; static/environment occupancies ignore the time; DynamicObstacle answers the initial data exactly at the initial step, delegates with the same time step only for later steps with a prediction and otherwise None; occupancy lookup returns only a time-step match; the trajectory index is t - initial under guards that imply 0 <= index < len; scenario-level queries ask the per-obstacle answer at the queried step, pair ids and answers of the same element, and iterate the registry of the requested role. Not decided: the enclosing-rectangle formula for uncertain states, numeric values, that state i of a trajectory carries time step initial+i.",
     "Trusts annotations of the collection getters, constructor-established roles, and the naming of the per-obstacle query methods.",
     "DESIGN.md §3 C04",
 )
 
 CLAIMED["C19"] = (
-    "ast rules on draw_params.py (structure of BaseParam.__setattr__/__post_init__ with syntax-directed guard sets, dataclass/field declarations) and on MPRenderer (parameter attribute chains typed against the declared parameter classes, group selection preludes, nullable-result dereference guards via resolved callee annotations, canonicalised time arguments of occupancy queries, the lanelet id filter)",
+    "ast rules on draw_params.py (structure of BaseParam.__setattr__/__post_init__ with syntax-directed guard sets, dataclass/field declarations) and on MPRenderer (parameter attribute chains typed against the declared parameter classes, group selection preludes, nullable-result dereference guards via resolved callee annotations, canonicalised time arguments of occupancy queries, the lanelet id filter) draw_scenario"s dispatch is decided by abstract evaluation on a scenario with one obstacle of every kind (sa/strdom.py).",
     "Decides three structural clauses only. Propagation: an assignment on a group is stored where declared and forwarded unmodified to every nested BaseParam once initialised; __post_init__ switches this on and re-assigns all BaseParam fields; all 22 groups are dataclasses below BaseParam with per-instance nested groups of the declared type. Totality (necessary conditions): all 137 parameter reads in draw_* methods name declared fields of the group type the method selects; every method selects the group of its declared kind from both default and top-level parameters; draw_scenario pairs each obstacle class with its group; possibly-None query results are dereferenced only under a not-None test in the obstacle drawers. Model agreement: the shape drawn is obj.occupancy_at_time(draw_params.time_begin), further occupancies range within [time_begin, time_end); the lanelet loop runs over all lanelets and skips exactly the unselected ids. NOT decided: that drawing completes for every scenario and parameter setting, what matplotlib shows, icons / labels / signals / trajectories.",
     "Trusts dataclasses semantics, annotations of draw_params parameters and query return types, and that the patches appended are what matplotlib renders.",
     "DESIGN.md §3 C19",
 )
 
 CLAIMED["C20"] = (
-    "sign/shape abstract interpretation of Lanelet._compute_polyline_cumsum_dist (facts: non-negative, first entry zero, Euclidean norm of consecutive differences, propagated through np.diff/square/sum/sqrt/append/amin/cumsum and the column-filling loop); structural recognisers with linear index forms for the interpolation and merge code; syntax-directed dominance, per-path filing counts and list-alignment rules on the two route searches",
+    "sign/shape abstract interpretation of Lanelet._compute_polyline_cumsum_dist (facts: non-negative, first entry zero, Euclidean norm of consecutive differences, propagated through np.diff/square/sum/sqrt/append/amin/cumsum and the column-filling loop); structural recognisers with linear index forms for the interpolation and merge code; syntax-directed dominance, per-path filing counts and list-alignment rules on the two route searches Frontier layouts recognised: parallel lists walked with zip, or one list of (path, length) pairs; constructs outside the vocabulary make the check refuse instead of reporting.",
     "Decides: the cumulative distance is cumsum of a vector proven non-negative with first entry 0 whose entries are recognised as |v[i+1]-v[i]| of the centre line (so it starts at 0, never decreases, ends at the polyline length); interpolate_position uses one index and one ratio (s-d[i])/(d[i+1]-d[i]) for all three polylines with weights (1-r), r on vertices i, i+1 of the matching polyline, found from searchsorted-1 moving forward only while d[i] > s, under an asserted 0 <= s <= length; merge_lanelets cuts all three polylines of the successor at one joint index (1 only if end and start vertex coincide), predecessor first, same boundary with same boundary, constructor roles preserved; in both range searches every extension p+[x] is dominated by x not in p, x != start and length < range, the first frontier is exactly the direct links, candidates are links of the last element, every (path, candidate) control path files exactly once, lists stay aligned, the frontier is rebuilt from an empty list each round (strictly longer loop-free paths: termination on cyclic networks), and both searches have the same abstract signature. Not decided: the interpolation and length values as numbers, floating-point behaviour exactly at vertices.",
     "Trusts numpy semantics of the modelled functions and that lanelet ids identify lanelets uniquely (C09).",
     "DESIGN.md §3 C20",
 )
 
 CLAIMED["C17"] = (
-    "symbolic abstract interpretation of TrafficLightCycle.cycle_init_timesteps and get_state_at_time_step over a term domain (linear forms in t, offset, total duration T; floored a mod b; table of window starts; mask value<table; first-true index; element selection) with transfer functions for the numpy idioms in use (cumsum, insert/append/concatenate, %, np.mod, fmod, argmax, searchsorted); the computed term is compared with the specification term",
+    "symbolic abstract interpretation of TrafficLightCycle.cycle_init_timesteps and get_state_at_time_step over a term domain (linear forms in t, offset, total duration T; floored a mod b; table of window starts; mask value<table; first-true index; element selection) with transfer functions for the numpy idioms in use (cumsum, insert/append/concatenate, %, np.mod, fmod, argmax, searchsorted); the computed term is compared with the specification term Recognises the vectorised and the first-index-scan form of the look-up and if-, early-return- and try/except-style memo getters; an in-place update of the memoised table is reported.",
     "Decides that the implementation is an instance of the table-lookup scheme whose symbolic value equals the specification: table = [b, b+d1, .., b+T] from the durations of the cycle's own elements in order; reported state = state of elements[i] with i = (first table entry strictly greater than b + ((t - offset) mod T)) - 1, i.e. the element whose window [start, start+duration) contains the reduced time step, for every t including t < offset (floored modulo) and every later period; TrafficLight returns its cycle's answer for the same t. A recognised term that differs (period, origin, strictness, the -1, table start, element list) is a violation naming the difference; a construct outside the vocabulary makes the check refuse (exit 2) rather than guess. Memo freshness of the table is C11.",
     "Trusts numpy semantics of the modelled functions, positive integer durations and at least one element (as the property assumes), and that np.argmax on a boolean mask returns the first True (one exists because the reduced value is below the last table entry).",
     "DESIGN.md §3 C17 (revised: was planned as not applicable)",
 )
 
 CLAIMED["C09"] = (
-    "ast pairing analysis of Scenario: id paths reserved per add_objects branch vs released per removal form (single/list), containment guards by syntax-directed dominance, ownership (who may drop / touch _id_set), atomic reservation, counter monotonicity",
+    "ast pairing analysis of Scenario: id paths reserved per add_objects branch vs released per removal form (single/list), containment guards by syntax-directed dominance, ownership (who may drop / touch _id_set), atomic reservation, counter monotonicity Behavioural rules are decided by abstract evaluation (sa/strdom.py): the anchored functions are interpreted over their AST on a small symbolic world (objects with atom-valued fields, concrete small collections, uninterpreted outside calls, model functions for outside collaborators), every test must be decidable from the shape case (else the check refuses), and the resulting state / value is compared with what the property requires; nothing of the repository is imported or executed. All modules are first brought into a normal form (sa/unroll.py: constant-table loops unrolled, constant getattr/setattr folded). Evaluated: every way of adding and removing each of the eight object kinds (normal, colliding id, not contained, foreign object carrying a contained id, lists, network replacement) on a scenario that contains one object of every kind over a lanelet-network model; afterwards pool == ids of the contained objects. Ownership and the counter stay structural.",
     "Per-operation invariant argument that covers every history: each add branch reserves the id paths of the object it stores in one all-or-nothing step before storing; each removal form releases exactly those paths and only under a containment guard; only designated functions drop objects or touch the id pool; replacing the network releases the old ids; the counter only grows and generate_object_id folds in max(_id_set). Decided for all 9 object kinds and 5 removal functions.",
     "Trusts that Scenario is the only writer of its private registries (other modules reaching into _id_set are out of view) and that LaneletNetwork.remove_* removes exactly the element with the given id.",
     "DESIGN.md §2 E-PAIRING, §3 C09",
 )
 
 CLAIMED["C10"] = (
-    "ast rules over LaneletNetwork/Scenario: frozen reference-field table vs the assignments in each cleanup_* function (filter against the right registry's id set), must-follow of cleanup after every registry deletion, reaching-definition checks of the cut-out filters, provenance of the hanging-member set difference",
+    "ast rules over LaneletNetwork/Scenario: frozen reference-field table vs the assignments in each cleanup_* function (filter against the right registry"s id set), must-follow of cleanup after every registry deletion, reaching-definition checks of the cut-out filters, provenance of the hanging-member set difference Behavioural rules are decided by abstract evaluation (sa/strdom.py): the anchored functions are interpreted over their AST on a small symbolic world (objects with atom-valued fields, concrete small collections, uninterpreted outside calls, model functions for outside collaborators), every test must be decidable from the shape case (else the check refuses), and the resulting state / value is compared with what the property requires; nothing of the repository is imported or executed. All modules are first brought into a normal form (sa/unroll.py: constant-table loops unrolled, constant getattr/setattr folded). Evaluated: the clean-up and removal methods of a real LaneletNetwork object with three lanelets, two signs, two lights and an intersection, densely cross-referenced, with and without references to ids that do not exist; afterwards no dangling and no lost reference. Cut-out and hanging-member rules stay structural.",
     "Decides that every id-valued reference field (15 fields in 4 holder classes) is re-filtered by the matching cleanup, that every deletion from _lanelets/_traffic_signs/_traffic_lights is followed by that cleanup on its path, that the cut-out intersects every intersection reference with the kept ids and copies exactly the signs/lights of kept lanelets, and that hanging signs/lights are (referenced by removed) minus (referenced by remaining). Does not decide that untouched relations keep their values.",
     "Trusts the frozen reference-field table (a new id-valued field would have to be added there) and well-formed stop lines (as the property assumes).",
     "DESIGN.md §3 C10",
 )
 
 CLAIMED["C05"] = (
-    "ast rules: reaching-definition pairing of the rotation-block entries in geometry/transform.py, annotation-typed spatial-attribute coverage of all 21 translate_rotate methods, argument pass-through, protocol completeness over typed receivers, assignability of the attributes State.translate_rotate writes in every State subclass",
+    "ast rules: reaching-definition pairing of the rotation-block entries in geometry/transform.py, annotation-typed spatial-attribute coverage of all 21 translate_rotate methods, argument pass-through, protocol completeness over typed receivers, assignability of the attributes State.translate_rotate writes in every State subclass Derived spatial data (occupancy sets, initial occupancy, polygons, vertices, spatial index) under translate_rotate is judged by C11"s freshness engine (T7-DERIVED).",
     "Decides necessary structure of exactness and totality: the 2x2 block is (cos a, -sin a; sin a, cos a) of the angle parameter on every branch (no approximation branch); every spatial attribute of every class with a translate_rotate is moved (reasoned exception table for local-frame and derived attributes); nested calls receive (translation, angle) unmodified; every class in the Scenario.obstacles union and every other typed receiver defines translate_rotate; State.translate_rotate only assigns stored attributes and classes with a derived heading rotate its dependencies; orientation sums are normalised. Rounding accuracy and invertibility as numbers are not decided.",
     "Trusts annotations for what is spatial, the exception table (20 rows with reasons) and numpy/math semantics.",
     "DESIGN.md §3 C05",
 )
 
 CLAIMED["C06"] = (
-    "ast sibling-agreement rules on the shape classes (canonicalised expressions: locals inlined, self._x = self.x), structural rules on LaneletNetwork index construction and on the two lookup functions (reaching definitions, dominating guards)",
+    "ast sibling-agreement rules on the shape classes (canonicalised expressions: locals inlined, self._x = self.x), structural rules on LaneletNetwork index construction and on the two lookup functions (reaching definitions, dominating guards) Behavioural rules are decided by abstract evaluation (sa/strdom.py): the anchored functions are interpreted over their AST on a small symbolic world (objects with atom-valued fields, concrete small collections, uninterpreted outside calls, model functions for outside collaborators), every test must be decidable from the shape case (else the check refuses), and the resulting state / value is compared with what the property requires; nothing of the repository is imported or executed. All modules are first brought into a normal form (sa/unroll.py: constant-table loops unrolled, constant getattr/setattr folded). Evaluated: every route that builds or changes a lanelet network against the index invariant (17 cases), the two spatial look-ups against a model of the spatial tree, the rectangle corner matrix as linear forms.",
     "Decides that each shape's containment predicate, exported shapely geometry and drawing are built from the same parameters (circle: bare radius/centre, closed disc; rectangle: (+-l/2, +-w/2) ring placed by centre and orientation; polygon: vertex ring with closed bbox pre-filter; group: any member), that the index stores per lanelet id that lanelet's polygon (right + reversed left boundary), that id map and tree are rebuilt together and on every construction route, and that both lookups filter and map tree hits consistently with a boundary-inclusive predicate. Does not decide shapely's predicates, tolerances or polygon validity.",
     "Trusts shapely/STRtree semantics (query returns candidates; predicate names) and the recognised expression idioms (an unrecognised rewrite is reported, see DESIGN §4).",
     "DESIGN.md §3 C06",
 )
 
 CLAIMED["C07"] = (
-    "ast def-use analysis of the 10 assignment sites (Scenario.assign_obstacles_to_lanelets and the XML/protobuf obstacle factories): origin lookup calls of the registered set vs the stored shape assignment via reaching definitions, lookup-argument and time-step pairing, add/remove sibling agreement and totality of the removing side",
+    "ast def-use analysis of the 10 assignment sites (Scenario.assign_obstacles_to_lanelets and the XML/protobuf obstacle factories): origin lookup calls of the registered set vs the stored shape assignment via reaching definitions, lookup-argument and time-step pairing, add/remove sibling agreement and totality of the removing side Behavioural rules are decided by abstract evaluation (sa/strdom.py): the anchored functions are interpreted over their AST on a small symbolic world (objects with atom-valued fields, concrete small collections, uninterpreted outside calls, model functions for outside collaborators), every test must be decidable from the shape case (else the check refuses), and the resulting state / value is compared with what the property requires; nothing of the repository is imported or executed. All modules are first brought into a normal form (sa/unroll.py: constant-table loops unrolled, constant getattr/setattr folded). Evaluated: Scenario.assign_obstacles_to_lanelets (shape and centre-only mode) and the add / remove helpers and remove_obstacle on a world with one static and one dynamic obstacle, look-ups answering from tables, real Lanelet registries.",
     "Decides that at every site the ids registered on lanelets originate from the same find_lanelet_by_shape call as the stored shape assignment (centre set only under use_center_only), that shape lookups use the shape placed at the state and centre lookups that state's position with the registry/assignment time step being that state's, that add and remove helpers walk the same assignment attributes, and that deregistration uses only non-raising operations (so removing a contained obstacle cannot fail there). Geometric truth of the sets is C06; stale registrations after obstacles move are not decided.",
     "Trusts the naming of the assignment sinks (initial_shape_lanelet_ids, shape_lanelet_assignment, ...) and find_lanelet_by_* semantics (C06).",
     "DESIGN.md §3 C07",
 )
 
 CLAIMED["C16"] = (
-    "interval-domain abstract interpretation (sa/ranges.py: + - * / fmod, arctan2(sin,cos) wrap, if-refinement, syntactic inlining of callees and property getters) of AngleInterval.contains/__contains__ under the class invariant, plus canonicalised structural rules on Interval predicates, arithmetic and setters",
+    "interval-domain abstract interpretation (sa/ranges.py: + - * / fmod, arctan2(sin,cos) wrap, if-refinement, syntactic inlining of callees and property getters) of AngleInterval.contains/__contains__ under the class invariant, plus canonicalised structural rules on Interval predicates, arithmetic and setters IMAGE and REJECT are decided by abstract evaluation with numeric terms and a case oracle over sign / order cases (sa/strdom.py); the normalisation loops by their exit facts; CLOSED on inequality sets.",
     "Proves, for all admissible intervals (start,end in [-2pi,2pi], 0 <= end-start < 2pi) and all real query values, that no assert in the containment code can fail, that the compared offset and the bound both range over [0, 2pi) (so the test is a modulo-2pi offset against the true length, not a difference wrapped to [-pi,pi]) with a non-strict comparison; decides closedness and operand pairing of Interval.contains/overlaps/intersection, the end swap of * and / exactly in the non-positive branch (decided on construction outcomes: sign of the factor to the pair handed to the constructor, through per-branch returns, locals, unpacking and conditional expressions), that AngleInterval.contains(interval) compares start offset + argument length with the own length (linear forms), construction of every arithmetic result through the checking constructor, and rejection of start > end. Floating-point rounding at the end points is not decided.",
     "Trusts the transfer functions of the interpreter (math.fmod sign/magnitude, arctan2(sin x, cos x) in [-pi, pi]) and that AngleInterval's constructor establishes the invariant (checked structurally under REJECT).",
     "DESIGN.md §2 E-RANGE, §3 C16",
 )
 CLAIMED["C08"] = (
-    "ast rules on GoalRegion/PlanningProblem: derived-property clobber analysis (stores into dependencies of computed State properties vs later reads, through returned aliases, with receiver classes from annotations), dispatch typing, field-table agreement, conjunction/disjunction structure, attribute pairing, enumerate-index provenance",
+    "ast rules on GoalRegion/PlanningProblem: derived-property clobber analysis (stores into dependencies of computed State properties vs later reads, through returned aliases, with receiver classes from annotations), dispatch typing, field-table agreement, conjunction/disjunction structure, attribute pairing, enumerate-index provenance Behavioural rules are decided by abstract evaluation (sa/strdom.py): the anchored functions are interpreted over their AST on a small symbolic world (objects with atom-valued fields, concrete small collections, uninterpreted outside calls, model functions for outside collaborators), every test must be decidable from the shape case (else the check refuses), and the resulting state / value is compared with what the property requires; nothing of the repository is imported or executed. All modules are first brought into a normal form (sa/unroll.py: constant-table loops unrolled, constant getattr/setattr folded). Evaluated: ShapeGroup.contains_point for every pattern of containing members; the angle-interval containment is C16"s interval interpretation (shared).",
     "Decides the structure of the goal check: no computed state property (PMState.orientation, ExtendedPMState.velocity_y) is read after one of its dependencies was overwritten on the same object; int and float are dispatched alike; the attributes a goal state may constrain are exactly those is_reached checks, each conjoined into the per-goal flag, results disjoined over goal states; each check pairs state.X with goal.X on the harmonised state; speed is norm(vx, vy) and heading atan2(vy, vx) at every site; goal_reached returns the index enumerated with the state that reached the goal. Containment arithmetic is C16; shape containment is C06.",
     "Trusts annotations (TraceState union) for which classes a state variable may have, and the naming of the four checked attributes.",
     "DESIGN.md §3 C08",
 )
 
 CLAIMED["C15"] = (
-    "ast effect/ordering rules on the two writer classes: transitive accumulating-mutation summary of self fields vs re-initialisation order in each public write method, reachability of reads of module-level mutable cells and clocks through the builder call graph, syntax-directed dominance of file sinks by the skip-return",
+    "ast effect/ordering rules on the two writer classes: transitive accumulating-mutation summary of self fields vs re-initialisation order in each public write method, reachability of reads of module-level mutable cells and clocks through the builder call graph, syntax-directed dominance of file sinks by the skip-return Behavioural rules are decided by abstract evaluation (sa/strdom.py): the anchored functions are interpreted over their AST on a small symbolic world (objects with atom-valued fields, concrete small collections, uninterpreted outside calls, model functions for outside collaborators), every test must be decidable from the shape case (else the check refuses), and the resulting state / value is compared with what the property requires; nothing of the repository is imported or executed. All modules are first brought into a normal form (sa/unroll.py: constant-table loops unrolled, constant getattr/setattr folded). Evaluated: FileWriter._handle_file_path over file name given/defaulted x file exists x policy x user reply (16 cases).",
     "Decides per public write call (hence for every interleaving of constructions and writes): every writer field that is filled while writing is re-created before it is filled; the shared decimal-precision cell read by float_to_str is set from the writer's own stored precision before any node is built; every file sink is dominated by the overwrite policy's skip-return and SKIP answers skip; the only clock read feeds the date stamp. Byte equality of outputs as such is not decided.",
     "Trusts that lxml/protobuf objects carry no hidden global state and single-threaded use (the shared cell is re-established per write, not made thread-safe).",
     "DESIGN.md §3 C15",
@@ -125,21 +125,21 @@ CLAIMED["C13"] = (
     "DESIGN.md §3 C13 (revised), §9",
 )
 CLAIMED["C14"] = (
-    "constant-table agreement (ast.literal_eval of the enum tables) against each other, the dataclass fields of the reader's class table and the parsed solution XSD; formatter classification of the writer's text expressions",
+    "constant-table agreement (ast.literal_eval of the enum tables) against each other, the dataclass fields of the reader"s class table and the parsed solution XSD; formatter classification of the writer"s text expressions Behavioural rules are decided by abstract evaluation (sa/strdom.py): the anchored functions are interpreted over their AST on a small symbolic world (objects with atom-valued fields, concrete small collections, uninterpreted outside calls, model functions for outside collaborators), every test must be decidable from the shape case (else the check refuses), and the resulting state / value is compared with what the property requires; nothing of the repository is imported or executed. All modules are first brought into a normal form (sa/unroll.py: constant-table loops unrolled, constant getattr/setattr folded). Evaluated against an element model: root node -> header parser (3 cases), trajectory node -> trajectory parser (every trajectory type), and the identifying data round trip shared with C13.",
     "Decides for all 7 trajectory types that StateFields/XMLStateFields/StateType/TrajectoryType are keyed alike, equally long and index-aligned (name correspondence per position), that the XML names, state/trajectory element names, header attributes and integer-typed elements equal the solution schema's for the 6 types it defines, that the reader's class table covers every state type with classes owning all fields (so what can be written can be read), that values are written with the shortest round-trip repr and parsed with float()/int() ('time' only), states are sorted by time step, and date/computation-time formats are mutually inverse. Numeric bit-identity follows from repr round-tripping, which is trusted.",
     "Trusts str(np.float64)/float() round-tripping, xml.etree, and the parsed XSD.",
     "DESIGN.md §2 E-TABLE/E-NUMFMT, §3 C14",
 )
 
 CLAIMED["C03"] = (
-    "abstract interpretation of the XML builder functions into the emitted element tree (tags, attributes, text expressions, emission order, guards; builder calls expanded, dynamic tags resolved from enums / state fields / obstacle roles) walked against the parsed 2020a XSD; formatter classification of every numeric text expression",
+    "abstract interpretation of the XML builder functions into the emitted element tree (tags, attributes, text expressions, emission order, guards; builder calls expanded, dynamic tags resolved from enums / state fields / obstacle roles) walked against the parsed 2020a XSD; formatter classification of every numeric text expression float_to_str"s own guard is decided exactly on the representatives of the regions its constants cut; per-write freshness of the root element comes from C15"s effect trace. Modules are first brought into a normal form (sa/unroll.py: constant-table loops unrolled, SubElement split).",
     "Decides for the whole writer (about 200 element/attribute emission sites in 30 builders): every emitted name is allowed by the schema type of its parent in at least one context the builder is used in (type-dispatch branches for inexpressible values excepted), xs:sequence children are emitted in schema order (choice groups unordered), required children and attributes are emitted, decimal-typed text goes through the positional formatter, enumeration text is the enum value, and the writer's attribute-name mapping inverts the reader's on every schema state element. Id/ref key constraints, positiveDecimal ranges and what float_to_str prints for a particular number are not decided.",
     "Trusts the XSD reader (flattened compositors), float_to_str producing plain decimals, and annotations for int-typed sources.",
     "DESIGN.md §2 E-TRIANGLE/E-NUMFMT, §3 C03",
 )
 
 CLAIMED["C01"] = (
-    "three-way comparison of (a) the element tree with value sources extracted from the XML builders by abstract interpretation with call-site parameter substitution, (b) the lookups and their provenance into constructor keywords extracted from the XML reader factories (reaching definitions, helper-call substitution, control dependence), and (c) the parsed XSD; plus static evaluation of the attribute-name mapping functions",
+    "three-way comparison of (a) the element tree with value sources extracted from the XML builders by abstract interpretation with call-site parameter substitution, (b) the lookups and their provenance into constructor keywords extracted from the XML reader factories (reaching definitions, helper-call substitution, control dependence), and (c) the parsed XSD; plus static evaluation of the attribute-name mapping functions The attribute-name maps are folded over every state attribute name and the writer-side goal-lanelet pairing is evaluated on three goal states. Behavioural rules are decided by abstract evaluation (sa/strdom.py): the anchored functions are interpreted over their AST on a small symbolic world (objects with atom-valued fields, concrete small collections, uninterpreted outside calls, model functions for outside collaborators), every test must be decidable from the shape case (else the check refuses), and the resulting state / value is compared with what the property requires; nothing of the repository is imported or executed. All modules are first brought into a normal form (sa/unroll.py: constant-table loops unrolled, constant getattr/setattr folded).",
     "Decides on about 2000 emitted leaves and 19 builder/factory/class pairs: everything written is looked up by the reader as the same kind at the same place; every attribute the reader takes from the file and the schema has a place for is written; per pair each constructor keyword is fed from leaves the writer fills from that same attribute (no crossed or dropped fields); writer and reader name maps are identical / mutually inverse on all 43 state fields; direction/boolean/driving-direction encodings are mutually inverse and exhaustive; ordered collections are written and read in stored order and x,y map to indices 0,1. Numeric closeness (10^-d), which state class the reader matches, and value-dependent behaviour are not decided.",
     "Trusts the frozen pair table (19 rows) and exception table (9 rows with reasons), lxml/ElementTree semantics of find/findall/get, and annotations used to tell nested objects from leaf values.",
     "DESIGN.md §2 E-TRIANGLE, §3 C01",
